@@ -388,7 +388,7 @@ class C05(RenderProp):
                 tok = impl.get("tok", [])
                 starts = [t for t in tok if t[0] == "S"]
                 texts = "".join(t[1] for t in tok if t[0] == "T")
-                void = case["doc"][0]["name"] == "input"
+                void = (case.get("spec_doc") or case["doc"])[0]["name"] == "input"
                 def norm(attrs):
                     out = []
                     for a in attrs:
@@ -404,7 +404,12 @@ class C05(RenderProp):
                                 continue  # a class value of (Unicode) white space only: no tokens, presence not compared
                         out.append([k, v])
                     return out
-                prop = (len(starts) == 1 and norm(starts[0][2]) == norm(spec["attrs"]) and (texts == "body" or void))
+                got, want = norm(starts[0][2]) if len(starts) == 1 else None, norm(spec["attrs"])
+                if case.get("spec_doc") and got is not None:
+                    # attributes that reach the tag through an object (a mixin call's `attributes`): each exactly once, in an order that
+                    # depends only on the object's contents - the source order of the call is not required
+                    got, want = sorted(got), sorted(want)
+                prop = (got is not None and got == want and (texts == "body" or void))
                 if not prop:
                     detail += " | tokenizer read %r expected %r" % (starts[:2], spec["attrs"])
         return corr, prop, detail
